@@ -22,11 +22,16 @@ static struct S_class_2eFIX8_3a_3aFileLogger the_fl;
 uint32_t cx_ex0[2]; /* bit k: generation k existed before (family 0 / 1) */
 uint32_t cx_rotnum, cx_flags; uint8_t cx_force;
 static int opened;
+/* access()/exist(): answered from the same symbolic generation directory as rename (any existence test the rotation code makes is
+   part of the modelled file system); a path that is not a generation name does not exist and is flagged as "another file" */
+static int acc_other;
 #ifdef BIG    /* runs around the documented maximum: names are opaque, only indexing and the number of renames are observed */
 uint32_t x_rename(uint8_t *from, uint8_t *to) { rn_calls++; return 0; }
+uint32_t x_access(uint8_t *path, uint32_t mode) { return 0; }
 void vf_ofs_opened(uint8_t *path, uint32_t mode) { opened++; }
 #else
 uint32_t x_rename(uint8_t *from, uint8_t *to) { return rec_rename(from, to); }
+uint32_t x_access(uint8_t *path, uint32_t mode) { int g = gen_of(0, path); if (g >= 0) return g_ex[0][g] ? 0 : (uint32_t)-1; if (g == -1) acc_other = 1; return (uint32_t)-1; }
 void vf_ofs_opened(uint8_t *path, uint32_t mode) { opened++; VF_ASSERT(gen_of(0, path) == 0, "C29: the log file opened after rotation is the configured path"); }
 #endif
 int main(void)
@@ -69,7 +74,7 @@ int main(void)
   VF_ASSERT(ok && !__vf_exc_pending, "C29: rotate succeeds"); __vf_exc_pending = 0;
   uint32_t c = rotnum < cap ? rotnum : cap;
   int due = rotnum > 0 && (!(flags & APPEND) || force);
-  VF_ASSERT(rn_other == 0 && rn_cross == 0, "C29: rotation never touches other files");
+  VF_ASSERT(rn_other == 0 && rn_cross == 0 && !acc_other, "C29: rotation never touches other files");
   if (!due) VF_ASSERT(rn_calls == 0, "C29: append-mode logs are not rotated unless forced (and a count of 0 rotates nothing)");
   for (uint32_t k = 0; k < NG; k++) {
     if (due && k >= 1 && k <= c && g_ex0[0][k - 1]) VF_ASSERT(g_ex[0][k] && g_id[0][k] == g_id0[0][k - 1], "C29: after rotation name.k holds what name.(k-1) held");
